@@ -74,7 +74,7 @@ def strip_comments(src):
 
 def import_closure(pid):
     """files under lean/QecVerif reachable from Props/<pid>.lean through `import QecVerif.…` (plus the driver)"""
-    seen, todo = set(), ['QecVerif.Props.' + pid, 'Driver']
+    seen, todo = set(), prop_modules(pid) + ['Driver']
     while todo:
         m = todo.pop()
         if m in seen:
@@ -101,6 +101,19 @@ def lake_build(targets=('QecVerif', 'qvdriver')):
     t0 = time.time()
     rc, out = sh(['lake', 'build'] + list(targets), cwd=LEAN, timeout=7200)
     return rc, out, time.time() - t0
+
+
+def prop_modules(pid):
+    """QecVerif.Props.<pid> plus every QecVerif.Props.<pid>.<Sub> module (sub-files need not be imported by the
+    aggregator: e.g. Instances files that themselves import Props/<pid>.lean)"""
+    base = os.path.join(LEAN, 'QecVerif', 'Props')
+    mods = []
+    if os.path.exists(os.path.join(base, pid + '.lean')):
+        mods.append('QecVerif.Props.' + pid)
+    sub = os.path.join(base, pid)
+    if os.path.isdir(sub):
+        mods += ['QecVerif.Props.{}.{}'.format(pid, f[:-5]) for f in sorted(os.listdir(sub)) if f.endswith('.lean')]
+    return mods
 
 
 def prop_theorems(pid):
@@ -130,7 +143,8 @@ def axiom_audit(pid, names):
     os.makedirs(tmpdir, exist_ok=True)
     tmp = os.path.join(tmpdir, 'Audit_{}_{}.lean'.format(pid, os.getpid()))
     with open(tmp, 'w') as f:
-        f.write('import QecVerif.Props.{}\n'.format(pid))
+        for m in prop_modules(pid):
+            f.write('import {}\n'.format(m))
         for n in names:
             f.write('#print axioms {}\n'.format(n))
     try:
@@ -296,7 +310,7 @@ class Ctx:
 
     # -- lean
     def lean_check(self, with_leanchecker=False):
-        rc, out, dt = lake_build(('QecVerif.Props.' + self.pid, 'qvdriver'))
+        rc, out, dt = lake_build(tuple(prop_modules(self.pid)) + ('qvdriver',))
         self.extra['lake_build_s'] = round(dt, 1)
         if rc != 0:
             self.proof['problems'].append('lake build failed:\n' + out[-3000:])
@@ -323,7 +337,7 @@ class Ctx:
         self.proof['discharged'] = ok if not hits else 0
         if with_leanchecker:
             t = time.time()
-            rc, out = sh(['lake', 'env', 'leanchecker', 'QecVerif.Props.' + self.pid], cwd=LEAN, timeout=7200)
+            rc, out = sh(['lake', 'env', 'leanchecker'] + prop_modules(self.pid), cwd=LEAN, timeout=7200)
             self.extra['leanchecker_s'] = round(time.time() - t, 1)
             self.extra['leanchecker_rc'] = rc
             if rc != 0:
